@@ -56,6 +56,11 @@ def handle (line : String) : String :=
   | ["bbatch", _] => "batch rt=true"
   | ["zz", x] => match x.toNat? with | some n => s!"ok {zigzagEnc n}" | none => "bad-op"
   | ["zzd", x] => match x.toNat? with | some n => s!"ok {zigzagDec n}" | none => "bad-op"
+  | ["walgrow", p, n] => match p.toNat?, n.toNat? with
+    | some p, some n =>
+      let (l, c) := growRead (2 ^ 20) (n / (2 ^ 20) + 2) n p 0 0
+      s!"ok {l} {c} {if l < n then (if l = 0 then "eof" else "short") else "full"}"
+    | _, _ => "bad-op"
   | "wal" :: k :: fs :: _ =>
     match k.toNat?, allSome ((splitCsv fs).map parseFrame) with
     | some k, some frames =>
